@@ -42,19 +42,21 @@ def collect_obs(L, mmax, tier, to, split):
             outside=["in-line fast path of collect() for more than %d consecutive bytes inside one call (longer buffers follow by composition of the byte-wise reference only if "
                      "the in-line path agrees with the resumed path, which is checked up to this length)" % L,
                      "block capacities above %d bytes are covered through the symbolic-capacity argument only (production: 100000..900000)" % mmax])
-def collect_inline_obs(L, mmax, tier, to):
-    for shape in range(1 << (L - 1)):
+def collect_inline_obs(L, mmax, tier, to, shapes=None):
+    for shape in (shapes if shapes is not None else range(1 << (L - 1))):
         add("collect_inline_L%d_s%02x" % (L, shape), "h_collect.c", "h_collect_inline", {"C04": tier, "C01": tier, "C02": tier},
             defines=["-DLEN=%d" % L, "-DMMAX=%d" % mmax, "-DINLINE_SHAPES", "-DSHAPE=%d" % shape],
             cbmc=["--unwind", "40", "--unwindset", "collect.0:260"], backend="kissat", timeout=to, mem_gb=4,
             shrink="encoder_scratch", extra_src=["crctab.c"], functions=COLLECT_FUNCS, assumptions=COLLECT_ASM + [SHRINK_NOTE],
             witness_mode="any",
             bounds="in-line path of collect(): one call, %d-byte buffer with byte-equality pattern %s (bit k set = byte k+1 equals byte k; "
-                   "all %d patterns are registered), concrete byte values, no pending run, concrete CRC start; capacity M symbolic 1..%d, "
-                   "fill level and block contents symbolic" % (L, format(shape, "0%db" % (L - 1)), 1 << (L - 1), mmax),
+                   "the registered patterns are listed in obligations.py), concrete byte values, no pending run, concrete CRC start; capacity M symbolic 1..%d, "
+                   "fill level and block contents symbolic" % (L, format(shape, "0%db" % (L - 1)), mmax),
             outside=["a run reaching the 259 limit inside one call (needs >= 259 bytes in one buffer; the limit on the resumed path is covered by collect_len*)"])
 collect_inline_obs(5, 8, "quick", 300)
-collect_inline_obs(7, 10, "thorough", 600)
+collect_inline_obs(6, 9, "quick", 300, shapes=[0x0f, 0x1f])            # 5 and 6 equal bytes (then a different one): run loop taken more than once
+collect_inline_obs(7, 10, "quick", 300, shapes=[0x1f, 0x3f, 0x2f])
+collect_inline_obs(7, 10, "thorough", 600, shapes=[x for x in range(64) if x not in (0x1f, 0x3f, 0x2f)])
 collect_obs(0, 9, "quick", 300, False)
 collect_obs(1, 9, "quick", 300, False)
 collect_obs(2, 6, "quick", 600, True)
@@ -197,6 +199,8 @@ main_ob("main2_compress_skip_first", "h_main_files", G, "-z", oper0="a.tbz", ope
         witnesses=["exit_failure", "exit_warning", "death_by_signal", "operand_converted", "compressed_suffix_skipped"])
 main_ob("main2_compress_skip_second", "h_main_files", G, "-zf", oper0="a", oper1="b.bz2", noper=2, extra=["-DEXPECT_SKIP=2", '-DEXPECT_OUT="a.bz2"'],
         witnesses=["exit_failure", "exit_warning", "death_by_signal", "operand_converted", "compressed_suffix_skipped"])
+main_ob("main2_verbose_skip_first", "h_main_files", G, "-zv", oper0="a.tbz", oper1="b", noper=2, extra=["-DEXPECT_SKIP=1", '-DEXPECT_OUT="?"', '-DEXPECT_OUT1="b.bz2"'],
+        witnesses=["exit_failure", "exit_warning", "death_by_signal", "operand_converted", "compressed_suffix_skipped"])
 main_ob("main2_stdout", "h_main_files", G, "-dc", oper0="a.bz2", oper1="b.bz2", noper=2, witnesses=WN + ["both_operands_processed"])
 # C21: filter mode
 FW = ["exit_success", "exit_failure", "death_by_signal"]
@@ -236,7 +240,7 @@ def comp_ob(name, entry, props, bounds, funcs, wit, unwind=12, to=600, real_heap
 comp_ob("stream_frame", "h_stream_frame", {"C02": "quick", "C03": "quick", "C18": "quick", "C11": "quick", "C01": "quick"},
         "two streams in one process, levels 1..9 each, 1..3 blocks per stream with arbitrary CRCs arriving at the reorder queue in any rotation",
         ["src/compress.c:init", "src/compress.c:uninit", "src/compress.c:write_header", "src/compress.c:write_trailer", "src/compress.c:can_reorder", "src/compress.c:do_reorder", "src/encode.h:combine_crc"],
-        ["blocks_arrive_out_of_order", "second_stream_written"], real_heap=True)
+        ["blocks_arrive_out_of_order", "second_stream_written", "empty_second_stream"], real_heap=True)
 RGP = {"C11": "quick", "C13": "quick", "C03": "quick"}
 RGB = "worker count symbolic 1..3 (slot totals 2w / 2w+2), all counters, queue sizes and queue contents arbitrary subject to INV; one task execution with re-havoc at every lock release"
 comp_ob("rg_transmit", "h_rg_transmit", RGP, RGB, ["src/compress.c:can_transmit", "src/compress.c:do_transmit"], ["transmit_enabled", "transmit_on_reserved_slot"])
@@ -286,3 +290,9 @@ add("emit_step", "h_emit.c", "h_emit_step", {"C09": "quick", "C05": "quick", "C0
            "inductive step: any sequence of buffers follows",
     assumptions=["the six resume states are interpreted as (pending byte, previous byte, run length so far, copies left) - pre-state constructor of h_emit_step"],
     outside=["count bytes above 2 / buffers above 3 bytes per call (loop bodies repeat)"])
+add("emit_step_long", "h_emit.c", "h_emit_step", {"C09": "quick", "C05": "thorough", "C06": "thorough"}, defines=["-DNB=6", "-DVMAX=1", "-DMB=5"], extra_src=["crctab.c"],
+    cbmc=["--unwind", "20", "--unwindset", "emit.0:3,emit.1:3,emit.2:3,emit.3:3,emit.4:7"], backend="kissat", timeout=900, mem_gb=8, functions=EMIT_FUNCS,
+    witnesses=["suspended_with_fresh_byte_pending", "suspended_inside_run_expansion", "suspended_before_fourth_equal_byte", "block_finished", "missing_run_length"],
+    bounds="ONE emit() call from each of the six resume states, remaining count 0..6, IBWT list of 6 entries (byte values 0..1), output buffer of 1..5 bytes (long enough to run through a whole counted run inside the main loop)",
+    assumptions=["the six resume states are interpreted as (pending byte, previous byte, run length so far, copies left) - pre-state constructor of h_emit_step"],
+    outside=["count bytes above 1 / buffers above 5 bytes per call"])
